@@ -1391,6 +1391,15 @@ class AtomsLevelOrders:
             check(at, "Si2, kmesh (2,1,1), smearing; build(); set_k(same k-points, weights (0.25, 0.75)); smear()", smear=True)
             at.set_k(np.asarray(at.kpts.k).copy(), [0.6, 0.4])
             check(at, "...; set_k(weights (0.6, 0.4)); smear()", smear=True)
+            # the smeared fillings belong to the weights (0.6, 0.4): new weights WITHOUT a new smear() - the object's own fill() (through set_k / build) must
+            # leave fillings whose k-weighted sum is the electron number for the weights it now carries
+            at.set_k(np.asarray(at.kpts.k).copy(), [0.1, 0.9])
+            check(at, "...; smear(); set_k(same k-points, weights (0.1, 0.9)) [no further smear()]")
+            at.occ.smear(np.sort(np.random.default_rng(5).uniform(-1, 1, (2, at.occ.Nspin, at.occ.Nstate)), axis=-1) + np.array([0.0, 0.4])[:, None, None])
+            at.kpts.wk = [0.8, 0.2]
+            at.occ.wk = [0.8, 0.2]
+            at.occ.fill()
+            check(at, "...; smear(); kpts.wk = occ.wk = (0.8, 0.2); occ.fill()")
             at = Atoms("He", [[0.0, 0.0, 0.0]], ecut=3, a=cell, charge=1, unrestricted=True)
             at.Z = 2
             at.build()
